@@ -126,8 +126,10 @@ def run_case(case):
         return res
     out, val = S.read_outcome(text)
     res["events"] += 1
-    if out != "ok" or len(cuts) != len(text) + 1:
-        _bump("premise_failed")      # not a well-formed text for this reader: outside the quantifier
+    if (out != "ok" and case["kind"] == "corpus") or len(cuts) != len(text) + 1:
+        # a repository form this reader cannot read is outside the quantifier; a generated
+        # text is well-formed by construction, so its failure shows up at the last cut (class T)
+        _bump("premise_failed")
         res["ok"] = None
         res["classes"].append("premise-failed")
         return res
